@@ -13,7 +13,7 @@ import z3
 
 from . import engine, solve
 from .engine import Ctx, Task, Unsupported
-from .sorts import V
+from .sorts import V, SortMismatch
 
 VERIF = os.path.dirname(os.path.dirname(os.path.abspath(__file__)))
 REPO = engine.REPO
@@ -182,7 +182,7 @@ def _run_task(args):
                 for i, rec in got:
                     allrecs[i] = rec
             out["obligations"] = [allrecs[i] for i in range(len(obs))]
-    except Unsupported as e:
+    except (Unsupported, SortMismatch) as e:
         out["unsupported"] = str(e)
     except Exception:
         out["error"] = traceback.format_exc()
